@@ -253,6 +253,10 @@ for m in (1, 16):
     H("f0_cap_any_m%d" % m, "__verif::f0", "F0", quick=["C19", "C09"] + (["C18"] if m == 1 else []), thorough=["C09", "C18", "C19"], cost=20,
       stubs=STUB_NULL, inst="Bump<%d>" % m, funcs=F0_FUNCS, bounds={"capacity": "any usize", "allocator": "A-null"})
 
+for m in (1, 8):
+    H("f0_ctor_twin_m%d" % m, "__verif::f0", "F0", quick=["C09"] if m == 1 else [], thorough=["C09", "C19"], cost=10, stubs=STUB_NULL, inst="Bump<%d>" % m,
+      funcs=["Bump::with_min_align_and_capacity", "Bump::try_with_min_align_and_capacity", "oom()"], allow=[r"^out of memory$|requested allocation size overflowed"],
+      bounds={"capacity": "any usize > 0", "allocator": "A-null", "expectation": "infallible constructor does not return"})
 H("f0_sentinel_align", "__verif::f0", "F0", quick=["C04"], thorough=["C04", "C20"], cost=3, inst="-", funcs=["static EMPTY_CHUNK"],
   bounds={"fact": "align_of_val(&EMPTY_CHUNK) >= 16 (compile-time layout fact; CBMC cannot observe the linker's placement)"})
 
